@@ -18,6 +18,8 @@ type RawSpec struct {
 	Type   operation.Type
 	Suffix string
 	Hash   uint
+	// RevealHash: the algorithm of the reveal value (0 = Hash).
+	RevealHash uint
 	// Key placed in the signed data (update key / recovery key).
 	RevealKey *Key
 	// SignWith signs the JWS (default: RevealKey).
@@ -73,6 +75,11 @@ func BuildRaw(s *RawSpec) ([]byte, error) {
 	revealOf := s.RevealOf
 	if revealOf == nil {
 		revealOf = s.RevealKey
+	}
+
+	revealHash := s.RevealHash
+	if revealHash == 0 {
+		revealHash = s.Hash
 	}
 
 	delta := &model.DeltaModel{UpdateCommitment: s.NextUpdateCommit, Patches: s.Patches}
@@ -132,7 +139,7 @@ func BuildRaw(s *RawSpec) ([]byte, error) {
 		}
 
 		return canonicalizer.MarshalCanonical(&model.UpdateRequest{
-			Operation: operation.TypeUpdate, DidSuffix: s.Suffix, RevealValue: revealOf.Reveal(s.Hash), Delta: reqDelta, SignedData: sd,
+			Operation: operation.TypeUpdate, DidSuffix: s.Suffix, RevealValue: revealOf.Reveal(revealHash), Delta: reqDelta, SignedData: sd,
 		})
 	case operation.TypeRecover:
 		sd, err := sign(&model.RecoverSignedDataModel{
@@ -144,7 +151,7 @@ func BuildRaw(s *RawSpec) ([]byte, error) {
 		}
 
 		return canonicalizer.MarshalCanonical(&model.RecoverRequest{
-			Operation: operation.TypeRecover, DidSuffix: s.Suffix, RevealValue: revealOf.Reveal(s.Hash), Delta: reqDelta, SignedData: sd,
+			Operation: operation.TypeRecover, DidSuffix: s.Suffix, RevealValue: revealOf.Reveal(revealHash), Delta: reqDelta, SignedData: sd,
 		})
 	default:
 		signedSuffix := s.Suffix
@@ -153,14 +160,14 @@ func BuildRaw(s *RawSpec) ([]byte, error) {
 		}
 
 		sd, err := sign(&model.DeactivateSignedDataModel{
-			DidSuffix: signedSuffix, RevealValue: revealOf.Reveal(s.Hash), RecoveryKey: s.RevealKey.JWK, AnchorFrom: s.From, AnchorUntil: s.Until,
+			DidSuffix: signedSuffix, RevealValue: revealOf.Reveal(revealHash), RecoveryKey: s.RevealKey.JWK, AnchorFrom: s.From, AnchorUntil: s.Until,
 		})
 		if err != nil {
 			return nil, err
 		}
 
 		return canonicalizer.MarshalCanonical(&model.DeactivateRequest{
-			Operation: operation.TypeDeactivate, DidSuffix: s.Suffix, RevealValue: revealOf.Reveal(s.Hash), SignedData: sd,
+			Operation: operation.TypeDeactivate, DidSuffix: s.Suffix, RevealValue: revealOf.Reveal(revealHash), SignedData: sd,
 		})
 	}
 }
